@@ -75,9 +75,12 @@ VGrey(e) ==
   LET c == e.cfg  full == (c.full = 1) IN
   IF e.res # "ok" THEN (IF c.mc \in Std7 THEN <<"C16.result", e.res>> ELSE OK)     \* non-standard matrices may be unsupported
   ELSE IF Len(e.out) # Len(e.px) THEN <<"C16.shape">>
+  \* "mix": a picture with coloured and neutral samples side by side (any subsampling); px[i] is the triple pixel i may
+  \* depend on (own luma, chroma sample of its block) and only the pixels whose chroma is neutral are judged
   ELSE FirstBad("C16.grey",
     {i \in 1..Len(e.px) :
        LET o == e.out[i]  y == e.px[i][1] IN
+       (~Has(e, "mix") \/ (e.px[i][2] = MidC(c.n) /\ e.px[i][3] = MidC(c.n))) /\
        ~ /\ AllNum3(o)
          /\ e.px[i][2] = MidC(c.n) /\ e.px[i][3] = MidC(c.n)
          /\ Cmp(Spread3(o), Add(TolGreySp, SpecEps)) <= 0
